@@ -1033,7 +1033,8 @@ pub fn finish(m: &Mutated, over: SignOver) -> Vec<u8> {
 // ---------------------------------------------------------------------------------------------
 // unsigned tampers (C01)
 
-pub const FIELD_TAMPERS: [&str; 22] = [
+pub const FIELD_TAMPERS: [&str; 23] = [
+    "value-alt-form",
     "sig-recid",
     "sig-der",
     "dup-pair-unsigned-before",
@@ -1221,6 +1222,62 @@ pub fn field_tamper(d: &Draft, which: &str, c: &mut Choices) -> Vec<u8> {
             if !found {
                 // pad instead: a 65-byte field with a leading zero
                 sig.insert(0, 0);
+            }
+        }
+        "value-alt-form" => {
+            // rewrite a typed value into another spelling of "the same" value (what a decoder that
+            // normalises on the way in would fold back), keeping the signature over the original:
+            // ip 4 bytes <-> IPv4-mapped 16 bytes, port with a leading zero / as 4 bytes, ip6 of an
+            // embedded IPv4 address -> 4 bytes
+            if emitted.find(b"ip").is_none() {
+                emitted.set(b"ip", rlp::encode_str(&[10, 0, 0, 1]));
+            }
+            // the record must be validly signed over the original values
+            let base = emitted.clone();
+            let s0 = sign_draft(&base, SignOver::Literal);
+            sig = s0;
+            let pick = c.below(4);
+            let getv = |d: &Draft, k: &[u8]| d.find(k).and_then(|i| d.kv[i].1.clone()).and_then(|r| rlp::decode_exact(&r).ok()).and_then(|i| i.as_str().map(|s| s.to_vec()));
+            match pick {
+                0 | 1 => {
+                    if let Some(v4) = getv(&emitted, b"ip") {
+                        if v4.len() == 4 {
+                            let mut m = vec![0u8; 10];
+                            m.extend_from_slice(&[0xff, 0xff]);
+                            m.extend_from_slice(&v4);
+                            emitted.set(b"ip", rlp::encode_str(&m));
+                        }
+                    }
+                }
+                2 => {
+                    let key: &[u8] = *c.pick(&[&b"tcp"[..], b"udp", b"tcp6", b"udp6"]);
+                    let port = getv(&emitted, key);
+                    match port {
+                        Some(p) => {
+                            let mut q = vec![0u8; 1 + c.below(3)];
+                            q.extend_from_slice(&p);
+                            emitted.set(key, rlp::encode_str(&q));
+                        }
+                        None => {
+                            // sign a record that has the port, emit the alternative spelling
+                            let mut b2 = emitted.clone();
+                            b2.set(key, rlp::encode_uint(80));
+                            sig = sign_draft(&b2, SignOver::Literal);
+                            emitted = b2;
+                            emitted.set(key, rlp::encode_str(&[0, 80]));
+                        }
+                    }
+                }
+                _ => {
+                    // ip6 = ::ffff:a.b.c.d signed, emitted as the 4-byte form
+                    let mut b2 = emitted.clone();
+                    let mut m = vec![0u8; 10];
+                    m.extend_from_slice(&[0xff, 0xff, 192, 0, 2, 1]);
+                    b2.set(b"ip6", rlp::encode_str(&m));
+                    sig = sign_draft(&b2, SignOver::Literal);
+                    emitted = b2;
+                    emitted.set(b"ip6", rlp::encode_str(&[192, 0, 2, 1]));
+                }
             }
         }
         "sig-recid" => {
